@@ -45,6 +45,40 @@ let murmur2 (data : int list) : int =
 
 let hash (b : byte list) : n = n_of_int (murmur2 (List.map int_of_byte b))
 
+(* MurmurHash64A (system/SetupSystem.cpp CalculateHashCode64, seed 0), as String::HashCode64 uses it *)
+let murmur64 (data : int list) : int64 =
+  let a = Array.of_list data in
+  let len = Array.length a in
+  let m = 0xc6a4a7935bd1e995L in
+  let ( *% ) = Int64.mul and ( ^% ) = Int64.logxor in
+  let shr x k = Int64.shift_right_logical x k in
+  let h = ref (Int64.mul (Int64.of_int len) m) in
+  let nblocks = len / 8 in
+  for b = 0 to nblocks - 1 do
+    let k = ref 0L in
+    for j = 7 downto 0 do k := Int64.logor (Int64.shift_left !k 8) (Int64.of_int a.(8*b + j)) done;
+    let k1 = !k *% m in
+    let k2 = k1 ^% (shr k1 47) in
+    let k3 = k2 *% m in
+    h := (!h ^% k3) *% m
+  done;
+  let rem = len land 7 in
+  let base = 8 * nblocks in
+  if rem > 0 then begin
+    for j = rem - 1 downto 0 do h := !h ^% (Int64.shift_left (Int64.of_int a.(base + j)) (8 * j)) done;
+    h := !h *% m end;
+  h := !h ^% (shr !h 47);
+  h := !h *% m;
+  h := !h ^% (shr !h 47);
+  !h
+
+let n_of_int64 (x : int64) : n =
+  le_dec (List.init 8 (fun j -> byte_tab.(Int64.to_int (Int64.logand (Int64.shift_right_logical x (8*j)) 0xffL))))
+let int64_of_n (v : n) : int64 =
+  let bs = le_enc (S (S (S (S (S (S (S (S O)))))))) v in
+  List.fold_right (fun b acc -> Int64.logor (Int64.shift_left acc 8) (Int64.of_int (int_of_byte b))) bs 0L
+let hash64 (b : byte list) : n = n_of_int64 (murmur64 (List.map int_of_byte b))
+
 (* ---------- description of a Message *)
 let rec fields_list = function FNil -> [] | FCons (n, tc, r, t) -> (n, tc, r) :: fields_list t
 let desc (m : msg) =
@@ -206,6 +240,7 @@ let () =
       if String.length head > 0 && head.[0] = 't' then begin
         let t = m1 in
         Printf.printf "%d TT %s %s\n" k (desc t) (hex_of (flatten t));
+        Printf.printf "%d TH %Lu %Lu\n" k (int64_of_n (tmpl_hash hash64 t)) (int64_of_n (tmpl_hash hash64 m0));
         if not (same_shape t m0) then Printf.printf "%d TF skip\n" k
         else match tmpl_flatten t m0 with
           | None -> Printf.printf "%d TF unmodelled\n" k
